@@ -466,3 +466,29 @@ func VerifC17KeystoreLock() {
 	rt.Assert(!rt.Blocked(func() { km.GetManagedAddressByScriptHash(sh) }), "manager-lock-is-free-afterwards")
 	rt.Reach("end")
 }
+
+// VerifC12IssueTwice: two requests in one process with the chain changing in between (payments arrive, or a
+// reorganisation takes them away): the gap rule of the second request is judged on the chain as it is then - nothing
+// an earlier request learnt about used addresses is carried over.
+func VerifC12IssueTwice() {
+	st := c12Setup()
+	rt.Assume(st.n <= 3) // room for two more addresses in the five tracked used-bits
+	_, err1 := st.issue()
+	rt.Assert((err1 == nil) == st.allowed(), "issued-iff-gap-rule-allows")
+	if err1 == nil {
+		st.n++
+		rt.Reach("first-issued")
+	}
+	// the chain moves: every issued address has history, or not, afresh
+	for i := uint32(0); i < st.n; i++ {
+		st.used[i] = rt.NondetBool()
+	}
+	got, err2 := st.issue()
+	rt.Assert((err2 == nil) == st.allowed(), "second-request-judged-on-the-chain-as-it-is-now")
+	if err2 == nil {
+		rt.Assert(len(got) == 1 && got[0].derivationPath.Index == st.n && st.storedCounter() == st.n+1, "next-index-issued")
+	} else {
+		rt.Assert(err2 == ErrGapLimit && st.storedCounter() == st.n, "refusal-changes-nothing")
+	}
+	rt.Reach("end")
+}
